@@ -1,5 +1,7 @@
 import NetVerif.Model.HtmlTok
 import NetVerif.Gen.C39
+import NetVerif.Model.HtmlTokExact
+import NetVerif.Proofs.Lemmas.HtmlTokExact
 /-!
 C39 — HTML tokenization is lossless; MaxBuf bound.
 
@@ -374,5 +376,92 @@ example : checkRun 3 [120, 121, 122, 60] [⟨ttText, [120, 121, 122], 4096⟩] .
 example : checkRun 2 [120, 121, 122, 60] [⟨ttText, [120, 121, 122], 4096⟩] .maxbuf [] [60] = false := by decide
 example : Disciplined 3 Buf.init [.refill 10, .advance, .advance, .newToken, .advance] := by
   simp [Disciplined, Buf.step, Buf.init, exceededCond]
+
+/-! ## Part C: the exact model of `Next` (D-tied to the real tokenizer) -/
+
+section Exact
+open NetVerif.Model.HtmlTokExact
+open NetVerif.Proofs.Lemmas.HtmlTokExact (next_frame)
+
+/-- Every token starts where the previous one stopped. -/
+def StartsAt : Nat → List TokSpan → Prop
+  | _, [] => True
+  | c, t :: ts => t.start = c ∧ StartsAt t.stop ts
+
+theorem runLoop_startsAt (f : Nat) (z : Z) (acc : List TokSpan) :
+    ∃ rest, (runLoop f z acc).1 = acc.reverse ++ rest ∧ StartsAt z.rawEnd rest := by
+  induction f generalizing z acc with
+  | zero => exact ⟨[], by simp [runLoop], trivial⟩
+  | succ f ih =>
+    simp only [runLoop]
+    split
+    · exact ⟨[], by simp, trivial⟩
+    · obtain ⟨rest, h1, h2⟩ := ih (next z).2 ({ ty := (next z).1, start := (next z).2.rawStart, stop := (next z).2.rawEnd } :: acc)
+      refine ⟨{ ty := (next z).1, start := (next z).2.rawStart, stop := (next z).2.rawEnd } :: rest, ?_, ?_⟩
+      · rw [h1]; simp
+      · exact ⟨(next_frame z).1, h2⟩
+
+/-- In the exact model of `Tokenizer.Next`, for every input, context tag, MaxBuf,
+CDATA setting and reader error: the raw spans of the returned tokens are chained
+from offset 0 (no gaps, no overlaps between consecutive tokens). -/
+theorem exact_tokens_chained (z0 : Z) : StartsAt z0.rawEnd (tokenizeAll z0).1 := by
+  obtain ⟨rest, h1, h2⟩ := runLoop_startsAt (z0.inp.size + 2) z0 []
+  simp only [List.reverse_nil, List.nil_append] at h1
+  unfold tokenizeAll
+  rw [h1]; exact h2
+
+/-- The ErrorToken, too, starts where the last token stopped. -/
+theorem exact_error_token_starts_at_cursor (z : Z) : (next z).2.rawStart = z.rawEnd := (next_frame z).1
+
+/-- Side condition NOT proved for the exact model (it is the no-panic invariant of
+the Go code: `z.raw.end` is never moved before `z.raw.start`): checked on every
+D-tie case, where the Go side would panic with a negative slice bound. -/
+def SpanOrder (toks : List TokSpan) : Prop := ∀ t ∈ toks, t.start ≤ t.stop
+
+theorem chained_of_startsAt (c : Nat) (toks : List TokSpan) (h : StartsAt c toks) (ho : SpanOrder toks) :
+    Chained c (toks.map fun t => (t.start, t.stop)) := by
+  induction toks generalizing c with
+  | nil => trivial
+  | cons t ts ih =>
+    simp only [StartsAt] at h
+    simp only [List.map_cons, Chained]
+    exact ⟨h.1, ho t (by simp), ih t.stop h.2 (fun t' ht' => ho t' (by simp [ht']))⟩
+
+/-- Losslessness of the exact model, modulo `SpanOrder`: the concatenation of the
+raws is the prefix of the input up to the final cursor. -/
+theorem exact_lossless_partial (z0 : Z) (h0 : z0.rawEnd = 0) (ho : SpanOrder (tokenizeAll z0).1) :
+    (raws z0.inp.toList ((tokenizeAll z0).1.map fun t => (t.start, t.stop))).flatten =
+      z0.inp.toList.take (finalCursor 0 ((tokenizeAll z0).1.map fun t => (t.start, t.stop))) := by
+  apply prefix_of_chained
+  have := exact_tokens_chained z0
+  rw [h0] at this
+  exact chained_of_startsAt 0 _ this ho
+
+/-- The literal MaxBuf clause of C39 on the exact model: no returned token is longer than the limit. -/
+def MaxBufStatement : Prop :=
+  ∀ (inp ctx : List Nat) (mb : Nat) (cdata : Bool), mb > 0 →
+    ∀ t ∈ (tokenizeAll (newTokenizer inp ctx mb cdata .eof)).1, t.stop - t.start ≤ mb
+
+def doctypeInput : List Nat := [60, 33, 68, 79, 67, 84, 89, 80, 69, 32, 104, 116, 109, 108, 62]  -- "<!DOCTYPE html>"
+
+/-- The unchanged code violates the literal clause: `<!DOCTYPE html>` with
+`SetMaxBuf(5)` yields a comment token whose raw is `<!DOCT` (6 bytes), with
+`AllowCDATA(true)` `<!DOCTY` (7 bytes). Finding `maxbuf-overshoot-markup-decl`. -/
+theorem maxBuf_statement_false : ¬ MaxBufStatement := by
+  intro h
+  have := h doctypeInput [] 5 false (by decide) ⟨5, 0, 6⟩ (by decide +kernel)
+  simp at this
+
+theorem maxBuf_overshoot_two : (tokenizeAll (newTokenizer doctypeInput [] 5 true .eof)).1 = [⟨5, 0, 7⟩] := by
+  decide +kernel
+
+/-- without a limit the same input is one Doctype token covering everything -/
+example : (tokenizeAll (newTokenizer doctypeInput [] 0 false .eof)).1 = [⟨6, 0, 15⟩] := by decide +kernel
+/-- `<a>x</a` : StartTag, Text, and the unterminated end tag is the ErrorToken's raw -/
+example : (tokenizeAll (newTokenizer [60, 97, 62, 120, 60, 47, 97] [] 0 false .eof)).1 = [⟨2, 0, 3⟩, ⟨1, 3, 4⟩] := by
+  decide +kernel
+example : (tokenizeAll (newTokenizer [60, 97, 62, 120, 60, 47, 97] [] 0 false .eof)).2.rawEnd = 7 := by decide +kernel
+
+end Exact
 
 end NetVerif.Proofs.C39
